@@ -156,7 +156,7 @@ def make_case(tier, seed, index):
                 if tr == "udp":
                     connects.append({"k": "sockerr", "errno": rnd.choice(ERRNOS + [24, 13])})
                 else:
-                    connects.append(connect_outcome(rnd.choice(["refused", "unreach", "hang", "ok_slow"]), rnd))
+                    connects.append(connect_outcome(rnd.choice(["refused", "unreach", "hang", "ok_slow", "ok_late", "ok_sockopt"]), rnd))
             else:
                 connects.append({"k": "ok", "d": 0.0})
         idle = [rnd.choice([0.0, 0.0, 5.0, 10.0]) for _ in calls]
